@@ -1,6 +1,6 @@
 (* Executable observation functions for the C20 correspondence check. *)
 From Verif.Lib Require Import GoSem Bits.
-From Verif.Model Require Export Keystore.
+From Verif.Model Require Export Keystore ResetKeystore.
 
 (* number of leading identifier bits the harness hands over *)
 Definition keyW : nat := 20.
@@ -86,13 +86,61 @@ Definition step_obs_eqb (a b : step_obs) : bool :=
 
 Record pcase := { p_pb : nat; p_bs : nat; p_ops : list op; p_impl : list step_obs }.
 
-Inductive case := CaseP (c : pcase).
+(* ---- part 2: resettable keystore ---------------------------------------- *)
+Definition dk (pb : nat) (v i : N) : skey := dkey pb (mk v i).
+
+Record rcase := {
+  q_pb : nat;
+  q_evs : list revent;                 (* the events the real run went through *)
+  q_putres : list (list N);            (* result of every acknowledged Put, in order *)
+  q_live : option (Z * list N);        (* Size and Get "" of the live keystore at the end *)
+  q_crash : list (list N * Z) }.       (* keys and Size of a keystore reopened on every journal prefix *)
+
+Fixpoint rrun_obs (pb : nat) (s : rst) (evs : list revent) : option (rst * list (list N)) :=
+  match evs with
+  | [] => Some (s, [])
+  | e :: rest =>
+      match rstep pb s e with
+      | None => None
+      | Some s' =>
+          match rrun_obs pb s' rest with
+          | None => None
+          | Some (sf, obs) =>
+              match e, r_wk s with
+              | EPutSync, Some (_, Some nw) => Some (sf, sort_N (map mid nw) :: obs)
+              | _, _ => Some (sf, obs)
+              end
+          end
+      end
+  end.
+
+Definition reopen_obs (j : list gentry) (n : nat) : list N * Z :=
+  let j' := firstn n j in (sort_N (map mid (reopen_keys j')), reopen_size j').
+
+Definition pair_eqb (a b : list N * Z) : bool := list_eqb N.eqb (fst a) (fst b) && Z.eqb (snd a) (snd b).
+
+Definition rverdict (c : rcase) : nat :=
+  match rrun_obs (q_pb c) (ropen []) (q_evs c) with
+  | None => 2
+  | Some (s, res) =>
+      let ok_res := list_eqb (list_eqb N.eqb) res (q_putres c) in
+      let ok_live := match q_live c with
+                     | None => true
+                     | Some (z, ids) => Z.eqb z (r_size s) && list_eqb N.eqb ids (sort_N (map mid (keys_of (primary s))))
+                     end in
+      let ok_crash := list_eqb pair_eqb (map (reopen_obs (r_j s)) (seq 0 (S (length (r_j s))))) (q_crash c) in
+      if ok_res && ok_live && ok_crash then 0 else 2
+  end.
+
+Inductive case := CaseP (c : pcase) | CaseR (c : rcase) | CaseSkip.
 
 (* 0 = agrees; 2 = the implementation's trace differs from the proved model on an
    observable the property speaks about (every C20 observable is one). *)
 Definition verdict (c : case) : nat :=
   match c with
   | CaseP c => if list_eqb step_obs_eqb (run (p_pb c) (p_bs c) ks_new (p_ops c)) (p_impl c) then 0 else 2
+  | CaseR c => rverdict c
+  | CaseSkip => 0
   end.
 
 Fixpoint verdicts_from (i : nat) (cs : list case) : list (nat * nat) :=
